@@ -38,7 +38,12 @@ ASSUMPTIONS = [
     "quantized_ulaw and bernoulli document no surrogate: finiteness of the gradient only",
     "stochastic_binary/ternary in learning phase 1 document a plain straight-through "
     "gradient (identity); in phase 0 they are binary/ternary",
-    "binary(use_stochastic_rounding=True) is outside the domain (inference path raises, see C08)",
+    "binary(use_stochastic_rounding=True) is generated in learning phase 1 only (its inference "
+    "path raises, C08-KF2) with rank>=2 tensors whose channels all contain a non-zero element "
+    "(all-zero channel gives NaN, C08-KF3): identity for constant/auto alpha; for alpha=None "
+    "any value of 1-tanh^2 on [x-f/8, x+f/8], f=2*min(channel max|x|,1) <= 2 (tanh' is taken at "
+    "the randomly rounded point); the maximal element(s) of a channel with max|x|<=1 are only "
+    "checked for finiteness (f depends on them, an undocumented extra gradient term)",
     "inputs |x| <= 1e30 (2*max|x| must not overflow float32 in the 'auto' scale)",
 ]
 BUDGET_S = {"quick": 35, "thorough": 800}
@@ -47,7 +52,8 @@ _CLS = ["quantized_bits", "quantized_linear", "quantized_relu", "quantized_po2",
         "quantized_tanh", "quantized_sigmoid", "quantized_hswish", "quantized_ulaw", "bernoulli"]
 _REQ = _CLS + ["lattice", "hyp", "both_sides", "clipped_region", "unclipped_region",
                "near_kink", "pinned_max", "nonste", "f_mid", "f_0", "phase1", "finite_only",
-               "alpha_auto", "alpha_auto_po2", "alpha_const", "alpha_list", "extreme_inputs"]
+               "alpha_auto", "alpha_auto_po2", "alpha_const", "alpha_list", "extreme_inputs",
+               "binary:stochastic_rounding", "ternary:stochastic_rounding", "band_oracle"]
 REQUIRED_LABELS = {"quick": _REQ, "thorough": _REQ}
 
 TOL = 1e-5
@@ -74,6 +80,8 @@ def family(cfg):
   if cls in ("quantized_bits", "quantized_linear"):
     ub = kw.get("bits", 8) - (1 if kw.get("keep_negative", True) else 0)
     return "sign" if ub == 0 else "multi_bit"
+  if cls in ("binary", "ternary") and kw.get("use_stochastic_rounding"):
+    return "stochastic_rounding"
   return "default"
 
 
@@ -176,15 +184,19 @@ def evaluate(case):
     labels.append("finite_only")
     return fails, labels, bool((x64 < 0).any() and (x64 > 0).any())
 
-  d, near = ref["d"], ref["near"]
+  d, near, skip = ref["d"], ref["near"], ref["skip"]
   exp = r64 * d
   tol = TOL * np.maximum(1.0, np.abs(r64))
-  live = (~near) & (np.abs(d) > 1e-6)
+  live = (~near) & (~skip) & (np.abs(d) > 1e-6)
+  if skip.any():
+    labels.append("skipped_scale_dependent_max")
+  if ref["band"] is not None:
+    labels.append("band_oracle")
   if near.any():
     labels.append("near_kink")
   if ref["pinned"].any():
     labels.append("pinned_max")
-  cmp_mask = ~near
+  cmp_mask = (~near) & (~skip)
   if (cmp_mask & ref["clipped"]).any():
     labels.append("clipped_region")
   if (cmp_mask & ~ref["clipped"]).any():
@@ -206,7 +218,13 @@ def evaluate(case):
     g64 = np.zeros(shape)
 
   err = np.abs(g64 - exp)
-  ok = err <= tol
+  if ref["band"] is not None:
+    b0, b1 = r64 * ref["band"][0], r64 * ref["band"][1]
+    ok = (g64 >= np.minimum(b0, b1) - tol) & (g64 <= np.maximum(b0, b1) + tol)
+    err = np.where(ok, 0.0, err)
+  else:
+    ok = err <= tol
+  ok |= skip
   for alt in ref["alts"]:
     ok |= near & (np.abs(g64 - r64 * alt) <= tol)
   # 'auto' pins the channel extremum on the clip edge: documented as not clipped
